@@ -22,11 +22,15 @@ LINES = {
     'illformed': '[7000010.000]  -> zz_q@77.foo(1, "s", nil, fd 3, array[2], 1.50000000, new id zz_r@78, zz_q@79, -3)',
     'dup_new': '[7000011.000] <1>  -> wl_compositor@3.create_surface(new id wl_surface@4)',
     'unknown_arg': '[7000012.000] <1>  -> wl_surface@4.frobnicate(what?, 12x)',
+    # characters some line splitters take for line ends, inside one line of program output
+    'chatter_odd_separators': 'report: page 1\x0cpage 2 \x1c \x85 next\u2028last',
 }
 COMMANDS = [
     'list', 'list wl_surface', 'list zz_nothing', 'list ~ 2', 'list [', 'list wl_pointer(pressed) ~ 1',
     'filter', 'filter wl_pointer', 'filter ! .motion', 'filter [', 'filter *',
     'breakpoint', 'breakpoint .commit', 'breakpoint !',
+    # a matcher typed in the form the tool itself displays it in (entered again it must do the same in both sessions)
+    'filter wl_registry.bind(*)', 'breakpoint [wl_surface.*(*), *.*(*=wl_surface)]',
     'matcher wl_surface.commit(x=0 ! 5)', 'matcher', 'matcher a:b:c', 'matcher [A ! B]: [wl_* ! wl_surface].[new, destroyed]',
     'connection', 'connection B', 'connection all', 'connection zz',
     'help', 'help matcher', 'help list', 'help zz', 'zz', '', 'wl list 4a', 'wlfilter', 'resume', 'quit', 'h', 'L ~ x',
@@ -36,7 +40,7 @@ SCRIPT_START = 24      # universe lines before this index are the fixed prelude
 
 def events(tier):
     evs = [['next'], ['line', 'chatter'], ['line', 'illformed'], ['line', 'chatter_esc'], ['line', 'dup_new'], ['line', 'unknown_arg'],
-           ['line', 'chatter_esc_open']]
+           ['line', 'chatter_esc_open'], ['line', 'chatter_odd_separators']]
     cmds = COMMANDS if tier != 'quick' else COMMANDS
     return evs + [['cmd', c] for c in cmds]
 
@@ -326,6 +330,8 @@ def eval_flags(case):
                 f.write('\n'.join(universe_lines()[:12]) + '\nplain chatter\n')
             env = dict(os.environ, PYTHONDONTWRITEBYTECODE='1', TERM='xterm-256color')
             argv = ['/venv/bin/python', os.path.join(sut.REPO, 'main.py')] + flags + case.get('matcher', []) + ['-l', path]
+            if case.get('run_mode'):
+                argv = ['/venv/bin/python', os.path.join(sut.REPO, 'main.py')] + flags + ['/bin/sh', '-c', 'cat "$1" >&2', 'sh', path]
             text = 'list wl_surface\nfilter wl_surface.[commit\nq\n'
             if case.get('tty'):
                 shown, rc = run_on_tty(argv, text, d, env)
@@ -358,6 +364,9 @@ def gen_flags(tier):
         yield {'flags': flags}
     matchers = [[], ['-f', 'wl_surface'], ['-f', 'wl_surface.[commit'], ['-b', '(('], ['-f', 'a.b.c.d'], ['-b', 'x@y@z'], ['-f', '"unterminated'],
                 ['-f', 'a:b:c'], ['-b', '!!x'], ['-f', '(a=b=c)']]
+    # colour disabled in one word with the mode option
+    for flags in (['-Cr'], ['-Cpr']):
+        yield {'flags': flags, 'tty': True, 'run_mode': True}
     for m in matchers:
         for flags, tty in ((['-C'], True), (['--no-color'], True), (['--color', '-C'], True), (['-C'], False), ([], False)):
             yield {'flags': flags, 'matcher': m, 'tty': tty}
